@@ -174,7 +174,7 @@ fn core_vs_stream(ctx: &mut Ctx) {
     ctx.subject(&name);
     let b = ctx.cfg.bs;
     let w = ctx.cfg.par;
-    let (iv, _) = wl::ctr_iv(&mut ctx.rng, fl, b);
+    let (iv, _) = stream_iv(ctx, fl, b);
     let (n, _) = wl::nblocks(&mut ctx.rng, w, b, ctx.tier);
     let (msg, _) = wl::data(&mut ctx.rng, n * b);
     let (sizes, s1) = wl::schedule(&mut ctx.rng, n, w);
@@ -344,7 +344,7 @@ fn ctors(ctx: &mut Ctx) {
             let d = ctx.rng.pick(&ctx.cfg.streams).clone();
             let name = format!("{}/stream/ctors", d.flavor.name());
             ctx.subject(&name);
-            let (iv, _) = wl::ctr_iv(&mut ctx.rng, d.flavor, b);
+            let (iv, _) = stream_iv(ctx, d.flavor, b);
             let (len, rc) = wl::nbytes(&mut ctx.rng, b, w, ctx.tier);
             let (data, _) = wl::data(&mut ctx.rng, len);
             ctx.note("iv", J::s(hex_short(&iv)));
